@@ -1,1 +1,1 @@
-def indicesUsesFftshiftUtils : Bool := true
+def indicesUsesFftshiftUtils : Bool := false
